@@ -6,6 +6,7 @@
 -/
 import GoldilocksVerif.Lemmas.BridgeNttComputeR
 import GoldilocksVerif.Lemmas.BridgeNttTop
+import GoldilocksVerif.Lemmas.BridgeNttComm
 import GoldilocksVerif.Lemmas.NttTop
 import GoldilocksVerif.Model.Inv
 
@@ -155,57 +156,55 @@ theorem tab_body (b : Nat) (ptr : Ptr) (hptr : ptr = ⟨b, 0⟩) (body : Nat →
   simp only [Heap.set_eq, Heap.get_def, Nat.zero_add]
   rfl
 
-/-- the `for (i = 2; i <= s; i++)` loop of `powTwoInv` -/
-theorem ptiloop (self : NTT_Goldilocks) (b S : Nat) (hb : self.powTwoInv = ⟨b, 0⟩) (hS : self.s.toNat = S) (hS32 : S ≤ 32) :
-    ∀ (n i : Nat) (X : Heap) (fuel : Nat), i + n = S + 1 → 2 ≤ i → n < fuel →
-    Loop.whileM (NTT_ctor_loop4 self) fuel (X, bv i) =
+theorem tabStep_one (i : Nat) (hi : 2 ≤ i) (A : Block) : (tabStep i A).getD 1 0#64 = A.getD 1 0#64 := by
+  unfold tabStep
+  rw [Array.getD_eq_getD_getElem?, Array.getElem?_setIfInBounds_ne (by omega), ← Array.getD_eq_getD_getElem?]
+
+theorem setBlock_absent (X : Heap) (b : Nat) (hbX : ¬ b < X.size) (Y : Block) : X.setBlock b Y = X := by
+  apply Heap.ext_blocks
+  simp only [Heap.setBlock, Heap.size] at hbX ⊢
+  apply Array.ext_getElem?
+  intro j
+  rw [Array.getElem?_setIfInBounds]
+  by_cases hj : b = j
+  · subst hj; simp [hbX]
+  · simp [hj]
+
+/-- the `for (i = 2; i <= s; i++)` loop of `powTwoInv`, for an ARBITRARY step function: it makes one `tabStep` while
+    `i ≤ s` (hypothesis `hnext`; the step may rely on entry 1 of the table, 2^-1, being what it was before the loop — the
+    loop writes entries ≥ 2 only — so reading it once into a local is as good as reading it in every iteration) and
+    stops at `i = s + 1` (`hstop`) -/
+theorem ptiloop_g (b S : Nat) (hS32 : S ≤ 32) (h1 : BitVec 64)
+    (step : Heap × BitVec 64 → Option (Bool × (Heap × BitVec 64)))
+    (hnext : ∀ (i : Nat) (X : Heap), 2 ≤ i → i ≤ S → (X.block b).getD 1 0#64 = h1 →
+      step (X, bv i) = some (true, (X.setBlock b (tabStep i (X.block b)), bv (i + 1))))
+    (hstop : ∀ (X : Heap), step (X, bv (S + 1)) = some (false, (X, bv (S + 1)))) :
+    ∀ (n i : Nat) (X : Heap) (fuel : Nat), i + n = S + 1 → 2 ≤ i → n < fuel → (X.block b).getD 1 0#64 = h1 →
+    Loop.whileM step fuel (X, bv i) =
       some (X.setBlock b (Loop.rangeAux 1 tabStep n i (X.block b)), bv (S + 1)) := by
-  have hsw : BitVec.setWidth 64 self.s = bv S := by
-    apply BitVec.eq_of_toNat_eq
-    rw [BitVec.toNat_setWidth, hS, bv_toNat _ (by omega), Nat.mod_eq_of_lt (by omega)]
   intro n
   induction n with
   | zero =>
-    intro i X fuel h1 h2 h3
+    intro i X fuel h1' h2 h3 _
     obtain ⟨f, rfl⟩ : ∃ f, fuel = f + 1 := ⟨fuel - 1, by omega⟩
-    have hc : decide (bv i ≤ BitVec.setWidth 64 self.s) = false := by
-      rw [hsw, decide_eq_false_iff_not, le_bv _ _ (by omega) (by omega)]; omega
-    have hstep : NTT_ctor_loop4 self (X, bv i) = some (false, (X, bv i)) := by
-      unfold NTT_ctor_loop4
-      simp only [hc, Bool.false_eq_true, if_false]
-    rw [Loop.whileM_stop _ _ _ _ hstep]
     have : i = S + 1 := by omega
     subst this
+    rw [Loop.whileM_stop _ _ _ _ (hstop X)]
     show some (X, bv (S + 1)) = some (X.setBlock b (X.block b), bv (S + 1))
     rw [Heap.setBlock_block]
   | succ n ih =>
-    intro i X fuel h1 h2 h3
+    intro i X fuel h1' h2 h3 hinv
     obtain ⟨f, rfl⟩ : ∃ f, fuel = f + 1 := ⟨fuel - 1, by omega⟩
-    have hc : decide (bv i ≤ BitVec.setWidth 64 self.s) = true := by
-      rw [hsw, decide_eq_true_eq, le_bv _ _ (by omega) (by omega)]; omega
-    have e1 : (bv i).toNat = i := bv_toNat _ (by omega)
-    have e2 : (bv i - 1#64).toNat = i - 1 := by rw [bv_one, bv_sub _ _ (by omega) (by omega), bv_toNat _ (by omega)]
-    have e3 : bv i + 1#64 = bv (i + 1) := by rw [bv_one, bv_add]
-    have hstep : NTT_ctor_loop4 self (X, bv i) = some (true, (X.setBlock b (tabStep i (X.block b)), bv (i + 1))) := by
-      unfold NTT_ctor_loop4
-      simp only [hc, if_true, e1, e2, e3, hb, Heap.set_eq, Heap.get_def, Nat.zero_add]
-      rfl
-    rw [Loop.whileM_next _ _ _ _ hstep, ih (i + 1) _ f (by omega) (by omega) (by omega)]
     by_cases hbX : b < X.size
-    · rw [Heap.block_setBlock_same _ _ _ hbX, Heap.setBlock_setBlock]
+    · rw [Loop.whileM_next _ _ _ _ (hnext i X h2 (by omega) hinv),
+        ih (i + 1) _ f (by omega) (by omega) (by omega)
+          (by rw [Heap.block_setBlock_same _ _ _ hbX, tabStep_one i h2]; exact hinv)]
+      rw [Heap.block_setBlock_same _ _ _ hbX, Heap.setBlock_setBlock]
       rfl
     · -- the block does not exist: nothing is written
-      have e : ∀ Y, X.setBlock b Y = X := by
-        intro Y
-        apply Heap.ext_blocks
-        simp only [Heap.setBlock, Heap.size] at hbX ⊢
-        apply Array.ext_getElem?
-        intro j
-        rw [Array.getElem?_setIfInBounds]
-        by_cases hj : b = j
-        · subst hj; simp [hbX]
-        · simp [hj]
-      rw [e, e, e]
+      have e : ∀ Y, X.setBlock b Y = X := setBlock_absent X b hbX
+      rw [Loop.whileM_next _ _ _ _ (hnext i X h2 (by omega) hinv), e,
+        ih (i + 1) X f (by omega) (by omega) (by omega) hinv, e, e]
 
 /-! ### the hand model's constructor, unfolded -/
 
@@ -395,18 +394,43 @@ theorem ctor_gen (fuel : Nat) (hf : 64 ≤ fuel) (hp : Heap) (hpos : 0 < hp.size
       -- the roots loop
       rw [Loop.rangeM_rep (R := fun A => Heap.R2 H b (b + 1) (A, _)) (f := tabStep) _ 2 (2 ^ S)
         (fun i A _ _ => by
-          unfold NTT_ctor_loop3
+          unfold_loops
           simp only [Heap.set_eq, Heap.get_def, Nat.zero_add]
           rw [Heap.R2_block_fst _ _ _ _ hbc (by omega), Heap.R2_setBlock_fst _ _ _ _ _ hbc]
           rfl)]
       rw [Option.bind_some, roots_range S D hS h2S2, Heap.R2_block_fst _ _ _ _ hbc (by omega), hassert, beq_self_eq_true,
         if_pos rfl]
-      -- the powTwoInv loop
-      have hpl := ptiloop
-        ({ s := BitVec.ofNat 32 S, nThreads := (if (thr == 0#32) = true then I32.toU32 Omp.maxThreads else thr), nqr := Gmp.get_ui 7, roots := ⟨b, 0⟩, powTwoInv := ⟨b + 1, 0⟩, r := Ptr.null, r_ := Ptr.null, r_N := self0.r_N, extension := (e : Int) } : NTT_Goldilocks)
-        (b + 1) S rfl hSn hS32 (S - 1) 2
+      -- the powTwoInv loop: its step function, whatever its parameter list (2^-1 read in every iteration or once before)
+      have h1pti : (((Array.replicate (S + 1) 0#64).setIfInBounds 0 one__r).setIfInBounds 1 9223372034707292161#64).getD 1 0#64 =
+          9223372034707292161#64 := by
+        rw [Array.getD_eq_getD_getElem?, Array.getElem?_setIfInBounds_self_of_lt (by simp; omega)]
+        rfl
+      try simp only [Heap.get_def, Nat.zero_add, Heap.R2_block_snd _ _ _ _ (show b + 1 < H.size by omega), h1pti]
+      name_while step with hstepdef
+      have hsw : BitVec.setWidth 64 (BitVec.ofNat 32 S) = bv S := setWidth_ofNat32 S (by omega)
+      have hnext : ∀ (i : Nat) (X : Heap), 2 ≤ i → i ≤ S → (X.block (b + 1)).getD 1 0#64 = 9223372034707292161#64 →
+          step (X, bv i) = some (true, (X.setBlock (b + 1) (tabStep i (X.block (b + 1))), bv (i + 1))) := by
+        intro i X h2i hiS hinv
+        subst hstepdef
+        have hc : decide (bv i ≤ bv S) = true := by
+          rw [decide_eq_true_eq, le_bv _ _ (by omega) (by omega)]; exact hiS
+        unfold_loops
+        unfold tabStep
+        simp only [hsw, hc, if_true, Heap.set_eq, Heap.get_def, Nat.zero_add, bv_one]
+        simp (disch := bv_side) only [bv_sub, bv_add, bv_toNat, hinv]
+        close_shape
+      have hstop : ∀ (X : Heap), step (X, bv (S + 1)) = some (false, (X, bv (S + 1))) := by
+        intro X
+        subst hstepdef
+        have hc : decide (bv (S + 1) ≤ bv S) = false := by
+          rw [decide_eq_false_iff_not, le_bv _ _ (by omega) (by omega)]; omega
+        unfold_loops
+        simp only [hsw, hc, Bool.false_eq_true, if_false]
+      clear hstepdef
+      have hpl := ptiloop_g (b + 1) S hS32 9223372034707292161#64 step hnext hstop (S - 1) 2
         (Heap.R2 H b (b + 1) (mkRoots D, ((Array.replicate (S + 1) 0#64).setIfInBounds 0 one__r).setIfInBounds 1
           9223372034707292161#64)) fuel (by omega) (by omega) (by omega)
+        (by rw [Heap.R2_block_snd _ _ _ _ (by omega)]; exact h1pti)
       have h2 : (2#64 : BitVec 64) = bv 2 := rfl
       rw [h2, hpl]
       simp only [Option.bind_some]
